@@ -992,6 +992,9 @@ func (ex *Exec) mkSubslice(so, elemSort, arr, lo, hi string) string {
 	na := vc.fresh("shift", sx("Array", tc.idxSort(), elemSort))
 	plus := sx("+", "qk!", lo)
 	vc.addAxiom("shiftdef_"+na, fmt.Sprintf("(forall ((qk! %s)) (! (= (select %s qk!) (select %s %s)) :pattern ((select %s qk!))))", tc.idxSort(), na, arr, plus, na), na)
+	// the same fact, instantiated from an element of the source array (index arithmetic defeats E-matching otherwise)
+	minus := sx("-", "qj!", lo)
+	vc.addAxiom("shiftdef2_"+na, fmt.Sprintf("(forall ((qj! %s)) (! (= (select %s %s) (select %s qj!)) :pattern ((select %s qj!))))", tc.idxSort(), na, minus, arr, arr), na)
 	return vc.define("sl", so, sx("mk_"+so, na, ln))
 }
 
